@@ -27,8 +27,12 @@ fn cti_def<T: Dom>(n: usize, k: usize) {
         let Some(o) = v.last() else { T::oblige(&format!("CTI(N={n}) t={t}: has a value"), Cond::Bool(false)); continue };
         // o = cov / sqrt(vx*vi)  <=>  o^2 vx vi = cov^2 and sign(o) = sign(cov);  0 when a variance is 0
         let degenerate = Cond::Or(vec![eq(vx, T::zero()), eq(vi, T::zero())]);
-        T::oblige(&format!("CTI(N={n}) t={t}: out == Pearson correlation of the window with its time index (0 if a variance is 0)"),
-            Cond::Or(vec![Cond::And(vec![degenerate.clone(), eq(o, T::zero())]), Cond::And(vec![Cond::not(degenerate), eq(o * o * vx * vi, cov * cov), le(T::zero(), o * cov)])]));
+        let full = Cond::Or(vec![Cond::And(vec![degenerate.clone(), eq(o, T::zero())]), Cond::And(vec![Cond::not(degenerate.clone()), eq(o * o * vx * vi, cov * cov), le(T::zero(), o * cov)])]);
+        let mut alts = vec![];
+        // the real code returns num/sqrt(rad): cov = n*num and vx*vi = n^2*rad (polynomial identities)
+        if let Some((num, rad)) = o.ratio_sqrt_parts() { alts.push(Cond::And(vec![Cond::not(degenerate), eq(num * nn, cov), eq(rad * nn * nn, vx * vi)])); }
+        alts.push(full);
+        T::oblige_alt(&format!("CTI(N={n}) t={t}: out == Pearson correlation of the window with its time index (0 if a variance is 0)"), alts);
         let rising = Cond::And(w.windows(2).map(|p| lt(p[0], p[1])).collect());
         let falling = Cond::And(w.windows(2).map(|p| lt(p[1], p[0])).collect());
         let _ = (rising, falling); // +-1 on monotone windows is NOT implied by Pearson (only by Kendall); the statement's corollary for CTI holds for linear windows
@@ -46,7 +50,7 @@ fn cti_neg<T: Dom>(n: usize, k: usize) {
         let x = T::input(&format!("x{t}"));
         v.update(x); u.update(-x);
         if t + 1 < n { continue; }
-        if let (Some(a), Some(b)) = (v.last(), u.last()) { T::oblige(&format!("CTI(N={n}) t={t}: CTI(-x) == -CTI(x)"), eq(b, -a)); }
+        if let (Some(a), Some(b)) = (v.last(), u.last()) { T::oblige_alt(&format!("CTI(N={n}) t={t}: CTI(-x) == -CTI(x)"), rel_alts(b, a, -T::one(), eq(b, -a), true)); }
     }
 }
 /// Kendall tau over all n(n-1)/2 pairs of the values currently in the window, ties contribute 0
